@@ -252,6 +252,34 @@ fn gen_chunks(rng: &mut Rng, max: usize) -> Vec<String> {
     (0..n).map(|_| rng.pick(&WORDS).to_string()).collect()
 }
 
+/// "Methods returning strings … return exactly what Rust wrote" rests on the proc macro flushing every write buffer
+/// after the call (NUL terminator of fixed buffers, the `flush` callback of caller-supplied writers): in the real
+/// expansion every `extern "C"` function flushes each of its `DiplomatWrite` parameters, whatever else it returns.
+fn macro_flush_probe(rep: &mut Report) {
+    let src = "#[diplomat::bridge]\nmod ffi {\n    use diplomat_runtime::DiplomatWrite;\n    use core::fmt::Write;\n    #[diplomat::opaque]\n    pub struct Em;\n    impl Em {\n        pub fn plain(&self, w: &mut DiplomatWrite) { let _ = w.write_str(\"a\"); }\n        pub fn fallible(&self, w: &mut DiplomatWrite) -> Result<(), ()> { let _ = w.write_str(\"b\"); Ok(()) }\n        pub fn optional(&self, w: &mut DiplomatWrite) -> Option<()> { let _ = w.write_str(\"c\"); Some(()) }\n        pub fn counted(&self, w: &mut DiplomatWrite) -> usize { let _ = w.write_str(\"d\"); 1 }\n        pub fn checked(&self, w: &mut DiplomatWrite) -> Result<bool, ()> { let _ = w.write_str(\"e\"); Ok(true) }\n        pub fn first(&self, w: &mut DiplomatWrite, times: u8) { let _ = w.write_str(\"f\"); let _ = times; }\n        pub fn tee(&self, v: &mut DiplomatWrite, w: &mut DiplomatWrite) { let _ = v.write_str(\"g\"); let _ = w.write_str(\"h\"); }\n        pub fn none(&self, x: u8) -> u8 { x }\n    }\n}\n".to_string();
+    let want: [(&str, usize); 8] = [("Em_plain", 1), ("Em_fallible", 1), ("Em_optional", 1), ("Em_counted", 1), ("Em_checked", 1), ("Em_first", 1), ("Em_tee", 2), ("Em_none", 0)];
+    let case = "(c12 probe macro-flushes-every-write)";
+    let ex = crate::expand::expand_each(&[src.clone()]);
+    rep.oracle_runs += 1;
+    rep.count("probe:macro-flush");
+    match &ex[0] {
+        Err(e) => rep.oracle_fail(case, "the flush probe does not build with the real proc macro", json!({"rustc": e})),
+        Ok(x) => {
+            for (name, n) in want {
+                match x.extern_fns.iter().find(|f| f.name == name) {
+                    None => rep.oracle_fail(case, "an extern function of the flush probe is missing from the expansion", json!({"function": name})),
+                    Some(f) => {
+                        let flushes = f.text.matches("flush").count();
+                        if flushes != n {
+                            rep.oracle_fail(case, "the proc macro does not flush every DiplomatWrite parameter after the call", json!({"function": name, "write_parameters": n, "flush_calls_in_expansion": flushes, "expansion": f.text.chars().take(600).collect::<String>()}));
+                        }
+                    }
+                }
+            }
+        }
+    }
+}
+
 pub fn gen_case(rng: &mut Rng, thorough: bool) -> Case {
     let max = if thorough { 24 } else { 12 };
     match rng.below(10) {
@@ -336,5 +364,6 @@ pub fn main(args: &[String]) {
     }
     util::breadcrumb_clear("C12");
     cpp_adaptor(&mut rep);
+    macro_flush_probe(&mut rep);
     rep.print();
 }
